@@ -581,6 +581,7 @@ func (s *Server) handleRequest(req *dhcpv4.DHCPv4) (*dhcpv4.DHCPv4, error) {
 	var poolID uint32
 	var authResp *radius.AuthResponse
 	isNewSession := existingLease == nil
+	ownershipChecked := false
 
 	if existingLease != nil {
 		// Renewal - verify IP matches
@@ -645,12 +646,15 @@ func (s *Server) handleRequest(req *dhcpv4.DHCPv4) (*dhcpv4.DHCPv4, error) {
 		} else if !pool.Contains(requestedIP) {
 			atomic.AddUint64(&s.naksTotal, 1)
 			return s.buildNAK(req, "IP not in pool")
-		} else if s.nexusClient == nil && !pool.IsAllocatedTo(mac, requestedIP) {
+		} else if s.nexusClient == nil {
 			// The local pool is authoritative: only the address it offered to
 			// this client may be acknowledged - never the gateway, network or
 			// broadcast address, nor one leased or offered to another client.
-			atomic.AddUint64(&s.naksTotal, 1)
-			return s.buildNAK(req, "IP not offered to this client")
+			if !pool.IsAllocatedTo(mac, requestedIP) {
+				atomic.AddUint64(&s.naksTotal, 1)
+				return s.buildNAK(req, "IP not offered to this client")
+			}
+			ownershipChecked = true
 		}
 	}
 
@@ -699,6 +703,19 @@ func (s *Server) handleRequest(req *dhcpv4.DHCPv4) (*dhcpv4.DHCPv4, error) {
 	}
 
 	s.leasesMu.Lock()
+	// The lease cleanup may have reclaimed the address while this request was
+	// being processed; check and commit under the lock it releases under.
+	reclaimed := false
+	if isNewSession {
+		reclaimed = ownershipChecked && !pool.IsAllocatedTo(mac, requestedIP)
+	} else {
+		reclaimed = s.leases[existingLease.MAC.String()] == nil
+	}
+	if reclaimed {
+		s.leasesMu.Unlock()
+		atomic.AddUint64(&s.naksTotal, 1)
+		return s.buildNAK(req, "IP no longer allocated to this client")
+	}
 	s.leases[mac.String()] = lease
 	s.leasesMu.Unlock()
 
@@ -1162,7 +1179,11 @@ func (s *Server) cleanupExpiredLeases() {
 
 	s.leasesMu.Lock()
 	for _, mac := range expired {
-		lease := s.leases[mac]
+		// The lease may have been renewed or released since it was collected
+		lease, ok := s.leases[mac]
+		if !ok || !now.After(lease.ExpiresAt) {
+			continue
+		}
 		delete(s.leases, mac)
 
 		// Remove from circuit-ID secondary index
